@@ -96,8 +96,11 @@ impl Node {
 
 #[derive(Clone, Copy, Debug, Serialize, Deserialize, PartialEq, Eq)]
 pub enum HoleVariant {
-    /// `order({k})` from tsrun:host — the VM suspends to the host
+    /// `order({k})` from tsrun:host behind an arrow function — the VM suspends to the host
+    /// inside a callee frame
     Order,
+    /// `order(k)` imported as `__h` itself — the VM suspends in the frame of the hole
+    OrderDirect,
     /// resolved / rejected promise built in-program
     Promise,
     /// synchronous stub returning / throwing the value
@@ -204,6 +207,8 @@ pub struct Gen<'a> {
     budget: isize,
     tags: Vec<&'static str>,
     uniq_prefix: String,
+    has_async_method: bool,
+    has_static_async: bool,
 }
 
 pub const SHOW_PRELUDE: &str = r#"function __show(v: any, d: number = 0, seen: any[] = []): string {
@@ -232,7 +237,7 @@ pub const SHOW_PRELUDE: &str = r#"function __show(v: any, d: number = 0, seen: a
     for (const e of v.values()) parts.push(__show(e, d + 1, seen));
     r = "Set{" + parts.join(",") + "}";
   } else {
-    const ks = Object.keys(v).sort();
+    const ks = Object.keys(v);
     const parts: string[] = [];
     for (const k of ks) parts.push(k + ":" + __show(v[k], d + 1, seen));
     r = "{" + parts.join(",") + "}";
@@ -246,6 +251,7 @@ pub fn hole_prelude(variant: HoleVariant, answers: &BTreeMap<String, Answer>) ->
         HoleVariant::Order => {
             "import { order } from \"tsrun:host\";\nconst __h = (k: number): any => order({ k: k });".to_string()
         }
+        HoleVariant::OrderDirect => "import { order as __h } from \"tsrun:host\";".to_string(),
         HoleVariant::Sync | HoleVariant::Promise => {
             // table-driven stub: identical data, no suspension
             let mut s = String::from("const __h = (k: number): any => {\n  switch (k) {\n");
@@ -292,6 +298,8 @@ impl<'a> Gen<'a> {
             budget,
             tags: Vec::new(),
             uniq_prefix: uniq_prefix.to_string(),
+            has_async_method: false,
+            has_static_async: false,
         }
     }
 
@@ -397,7 +405,23 @@ impl<'a> Gen<'a> {
         }
         let d = d - 1;
         loop {
-            match self.rng.below(22) {
+            match self.rng.below(24) {
+                22 => {
+                    if self.in_async
+                        && self.has_async_method
+                        && let Some(i) = self.pick_var(Ty::Inst)
+                    {
+                        self.tag("async-method-call");
+                        return format!("(await {}.am({}))", i.name, self.num(d));
+                    }
+                }
+                23 => {
+                    if self.in_async && self.has_static_async {
+                        self.tag("static-async-call");
+                        let c = self.uniq_prefix.clone();
+                        return format!("(await {}K.sm({}))", c, self.num(d));
+                    }
+                }
                 0 => return format!("({} + {})", self.num(d), self.num(d)),
                 1 => return format!("(({} * {}) % 1000)", self.num(d), self.num(d)),
                 2 => return format!("({} - {})", self.num(d), self.num(d)),
@@ -758,6 +782,26 @@ impl<'a> Gen<'a> {
     }
 
     fn decl(&mut self, d: usize) -> Node {
+        if self.scopes.len() > 1 && self.rng.chance(0.12) {
+            // shadow an outer variable in this inner block
+            let cur: Vec<String> = self.scopes.last().map(|s| s.iter().map(|v| v.name.clone()).collect()).unwrap_or_default();
+            let outer: Vec<Var> = self.scopes[..self.scopes.len() - 1]
+                .iter()
+                .flat_map(|s| s.iter())
+                .filter(|v| matches!(v.ty, Ty::Num | Ty::Str) && !cur.contains(&v.name))
+                .cloned()
+                .collect();
+            if !outer.is_empty() {
+                let v = outer[self.rng.below(outer.len())].clone();
+                let mut e = if v.ty == Ty::Num { self.num(1) } else { self.str_(1) };
+                if e.contains(&v.name) {
+                    e = if v.ty == Ty::Num { "77".into() } else { "\"sh\"".into() };
+                }
+                self.declare(&v.name, v.ty, true);
+                self.tag("shadow");
+                return Node::leaf(format!("let {}: any = {};", v.name, e));
+            }
+        }
         let kw_mut = self.rng.chance(0.6);
         let kw = if kw_mut { "let" } else { "const" };
         let mut choices = vec![Ty::Num, Ty::Num, Ty::Str, Ty::Arr, Ty::Arr, Ty::Obj, Ty::Obj];
@@ -861,7 +905,7 @@ impl<'a> Gen<'a> {
                 }
                 1 => {
                     if let Some(v) = self.pick_mut_var(Ty::Str) {
-                        return Some(Node::leaf(format!("{} += {};", v.name, self.str_(1))));
+                        return Some(Node::leaf(format!("{} = ({} + {}).slice(0, 40);", v.name, v.name, self.str_(1))));
                     }
                 }
                 2 => {
@@ -881,7 +925,7 @@ impl<'a> Gen<'a> {
                 }
                 5 => {
                     if let Some(o) = self.pick_var(Ty::Obj) {
-                        return Some(Node::leaf(format!("{}[\"k\" + {}] = {};", o.name, self.rng.below(3), self.obj(1))));
+                        return Some(Node::leaf(format!("{}[\"k\" + {}] = {};", o.name, self.rng.below(3), self.obj(0))));
                     }
                 }
                 6 => {
@@ -891,7 +935,7 @@ impl<'a> Gen<'a> {
                 }
                 7 => {
                     if let Some(m) = self.pick_var(Ty::Map) {
-                        return Some(Node::leaf(format!("{}.set({}, {});", m.name, self.rng.below(5), self.obj(1))));
+                        return Some(Node::leaf(format!("{}.set({}, {});", m.name, self.rng.below(5), self.obj(0))));
                     }
                 }
                 8 => {
@@ -939,7 +983,7 @@ impl<'a> Gen<'a> {
                 }
                 _ => {
                     if let Some(a) = self.pick_mut_var(Ty::Arr) {
-                        return Some(Node::leaf(format!("{} = {};", a.name, self.arr(2))));
+                        return Some(Node::leaf(format!("{} = {}.slice(0, 12);", a.name, self.arr(2))));
                     }
                 }
             }
@@ -1283,8 +1327,29 @@ impl<'a> Gen<'a> {
             decls.push(Node::leaf(format!(
                 "class {p}B {{ v: any; constructor(v: any) {{ this.v = v; }} m(x: any): any {{ return (Number(this.v) || 0) + (Number(x) || 0); }} static s(x: any): any {{ return x * 2; }} }}"
             )));
+            let mut extra = String::new();
+            self.in_async = true;
+            if self.holes_left > 0 && self.rng.chance(0.6) {
+                if let Some(h) = self.hole() {
+                    self.has_async_method = true;
+                    self.tag("async-method");
+                    extra.push_str(&format!(
+                        " async am(x: any): Promise<any> {{ const t: any = {h}; return (Number(this.v) || 0) + (Number(this.#p) || 0) + (Number(t) || 0) + (Number(x) || 0); }}"
+                    ));
+                }
+            }
+            if self.holes_left > 0 && self.rng.chance(0.3) {
+                if let Some(h) = self.hole() {
+                    self.has_static_async = true;
+                    self.tag("static-async-method");
+                    extra.push_str(&format!(
+                        " static async sm(x: any): Promise<any> {{ const t: any = {h}; return (Number(t) || 0) + this.s(x); }}"
+                    ));
+                }
+            }
+            self.in_async = false;
             decls.push(Node::leaf(format!(
-                "class {p}K extends {p}B {{ #p: any = 1; constructor(v: any) {{ super(v); this.#p = v; }} get g(): any {{ return (Number(this.#p) || 0) + 1; }} m(x: any): any {{ return super.m(x) + {p}B.s(1); }} }}"
+                "class {p}K extends {p}B {{ #p: any = 1; constructor(v: any) {{ super(v); this.#p = v; }} get g(): any {{ return (Number(this.#p) || 0) + 1; }} m(x: any): any {{ return super.m(x) + {p}B.s(1); }}{extra} }}"
             )));
         }
         self.in_async = true;
